@@ -111,6 +111,45 @@ let verdict_of (param : string) (arg : string) (impl : string) : string =
                    | Some n' when n' <> n -> fails := "C13:two-names-share-a-slot" :: !fails
                    | _ -> Hashtbl.replace seen slot n)
                 end) uniq;
+            (* "the scope's mapping is the one the emitted instructions use": a name the source binds (the
+               target of a bind in an accepted program) is in the returned scope *)
+            (match String.split_on_char ' ' arg with
+             | srchex :: _ ->
+               let src = (try String.init (String.length srchex / 2) (fun i -> Char.chr (int_of_string ("0x" ^ String.sub srchex (2 * i) 2))) with _ -> "") in
+               (* drop comments *)
+               let b = Buffer.create (String.length src) in
+               let inc = ref false in
+               String.iter (fun c -> if !inc then (if c = '\n' then (inc := false; Buffer.add_char b c)) else if c = '#' then inc := true else Buffer.add_char b c) src;
+               let t = Buffer.contents b in
+               let n = String.length t in
+               let is_name_char c = (c >= 'a' && c <= 'z') || (c >= 'A' && c <= 'Z') || (c >= '0' && c <= '9') || c = '_' || c = '.' in
+               let i = ref 0 in
+               while !i < n do
+                 if t.[!i] = '(' then begin
+                   let j = ref (!i + 1) in
+                   while !j < n && (t.[!j] = ' ' || t.[!j] = '\t' || t.[!j] = '\n' || t.[!j] = '\r') do incr j done;
+                   let kw = if !j + 2 <= n && String.sub t !j 2 = ":=" then 2 else if !j + 4 <= n && String.sub t !j 4 = "bind" then 4 else 0 in
+                   if kw > 0 then begin
+                     let k = ref (!j + kw) in
+                     let ws0 = !k in
+                     while !k < n && (t.[!k] = ' ' || t.[!k] = '\t' || t.[!k] = '\n' || t.[!k] = '\r') do incr k done;
+                     if !k > ws0 then begin
+                       let e = ref !k in
+                       while !e < n && is_name_char t.[!e] do incr e done;
+                       if !e > !k && !e < n && (t.[!e] = ' ' || t.[!e] = '\t' || t.[!e] = '\n' || t.[!e] = '\r') then begin
+                         let nm = String.sub t !k (!e - !k) in
+                         let first = nm.[0] in
+                         if not (first >= '0' && first <= '9') && nm <> "true" && nm <> "false" then
+                           (match List.assoc_opt (hexname nm) tbl with
+                            | Some "-" -> fails := "C13:a-name-the-program-binds-is-missing-from-the-returned-scope" :: !fails
+                            | _ -> ())
+                       end
+                     end
+                   end
+                 end;
+                 incr i
+               done
+             | [] -> ());
             let decls_covered = ref true in
             (* a variable declared with the Report. prefix (or inside the Report block) is a report
                variable, any other declared variable a control variable *)
